@@ -150,7 +150,17 @@ def run_ident(case: dict[str, Any], mutant: str | None = None) -> dict[str, Any]
             return
         n = holder.get("n", 0)
         for t, q, r in srv.log[n:]:
-            out["ev"].append({"k": "q", "t": t, "r": classify(r), "p": list(q)})
+            cls = classify(r)
+            if cls == POS and r is not None and len(q) >= 2 and q[0] == svc and r[0] == svc + 0x40:
+                # a positive response of the scanned service that echoes another identifier / sub-function than the
+                # one asked is not a positive response FOR that identifier (ISO 14229-1 echoes them): class 6
+                h = {0x22: 3, 0x2E: 3, 0x31: 4, 0x27: 2}.get(svc, 1)
+                qq = bytes(q[:h])
+                if svc == 0x27:
+                    qq = bytes([q[0], q[1] & 0x7F])
+                if bytes(r[1:h]) != qq[1:h]:
+                    cls = 6
+            out["ev"].append({"k": "q", "t": t, "r": cls, "p": list(q)})
         holder["n"] = len(srv.log)
 
     def sink(msg: str) -> None:
